@@ -1,11 +1,12 @@
 #include "simk.h"
 
-extern const struct driver drv_smoke, drv_c02, drv_c03, drv_c14;
+extern const struct driver drv_smoke, drv_c02, drv_c03, drv_c14, drv_c07;
 
 const struct driver *const all_drivers[] = {
 	&drv_smoke,
 	&drv_c02,
 	&drv_c03,
 	&drv_c14,
+	&drv_c07,
 	NULL,
 };
